@@ -127,6 +127,7 @@ def _all():
         _v("l_date", "Literal('2012-03-04', XSD['date'])", ["lit", "xsdlit"]),
         _v("l_xsdqname", "Literal('ex:x', XSD['QName'])", ["lit", "xsdqname"]),
         _v("l_exdt", "Literal('v', QualifiedName(Namespace('ex', 'http://a/'), 'dt'))", ["lit", "userlit"]),
+        _v("l_exBdt", "Literal('v', QualifiedName(Namespace('ex', 'http://b/'), 'dt'))", ["lit", "userlit"]),
         _v("l_foreign", "Literal('v', QualifiedName(Namespace('foo', 'http://c/'), 'dt'))", ["lit", "userlit", "foreignlit"]),
         _v("l_provdt", "Literal('v', PROVNS['Thing'])", ["lit"]),
     ]
